@@ -373,7 +373,13 @@ var pris = []string{"<3>", "<13>", "<163>"}
 
 // head builds a distinct head line of exactly n bytes (n >= 36).
 func head(idx, n int) string {
-	l := fmt.Sprintf("%s1 2020-01-0%dT00:00:0%dZ h%d a 1 m%d - ", pris[idx%3], idx+1, idx, idx, idx)
+	// every second record carries the NILVALUE timestamp "-" (valid RFC 5424, accepted by the parser): what follows "<PRI>1 "
+	// is not part of the documented record-start test
+	ts := fmt.Sprintf("2020-01-0%dT00:00:0%dZ", idx+1, idx)
+	if idx%2 == 1 {
+		ts = "-"
+	}
+	l := fmt.Sprintf("%s1 %s h%d a 1 m%d - ", pris[idx%3], ts, idx, idx)
 	if len(l) > n {
 		panic(fmt.Sprintf("head too long for %d: %d", n, len(l)))
 	}
